@@ -117,6 +117,16 @@ def apply_contract(interp, c, func, args, kwargs):
     # what is known about it afterwards is what the (exceptional) postconditions say
     short = c.qname.rpartition(':')[2]
     for key, ty in (c.modifies.items() if isinstance(c.modifies, dict) else ()):
+        if hasattr(ty, 'havoc_in_place'):
+            # an object whose (ghost) state the callee changes: havocked in place, identity kept
+            path = key.split('.')
+            obj = bound[path[0]]
+            if isinstance(obj, (SOpt, SChoice)):
+                obj = interp.resolve(obj)
+            for a in path[1:]:
+                obj = interp.getattr(obj, a)
+            ty.havoc_in_place(interp, obj, '%s@%s' % (key, short))
+            continue
         if isinstance(ty, Dependent):
             v = ty.make_for_call(interp, '%s@%s' % (key, short), env)
         else:
